@@ -82,6 +82,8 @@ theorem kcmp_lt_irrefl (a : Key) : kcmp a a ≠ .lt := by rw [kcmp_refl]; decide
 /-- strictly sorted by key (hence no duplicate key) -/
 def Sorted (m : List KV) : Prop := m.Pairwise (fun a b => kcmp a.1 b.1 = .lt)
 
+instance (m : List KV) : Decidable (Sorted m) := by unfold Sorted; infer_instance
+
 theorem put_bound {m : MemDB} {k : Key} {v : Val} {x : Key}
     (hm : ∀ e ∈ m, kcmp x e.1 = .lt) (hk : kcmp x k = .lt) : ∀ e ∈ m.put k v, kcmp x e.1 = .lt := by
   induction m with
@@ -267,5 +269,1401 @@ theorem get_foldl_step (ops : List Op) {m : MemDB} (h : Sorted m) (q : Key) :
 
 theorem get_run (ops : List Op) (q : Key) : (run ops).get q = finalOf ops q :=
   get_foldl_step ops (by simp [Sorted]) q
+
+/-! ### StateDB (C08) -/
+namespace SDB
+open StateDB
+
+/-- a mutation never touches the snapshot stack or the lower layers, and only appends to the log list -/
+theorem applyMut_frame {s s' : StateDB} {m : Mut} (h : s.applyMut m = some s') :
+    s'.snaps = s.snaps ∧ (∃ t, s'.logs = s.logs ++ t) ∧ s'.cache.backend = s.cache.backend := by
+  cases m with
+  | setState a k v => simp [applyMut, Cache.put] at h; subst h; exact ⟨rfl, ⟨[], by simp⟩, rfl⟩
+  | setNonce a n => simp [applyMut, putEthAccount, Cache.put] at h; subst h; exact ⟨rfl, ⟨[], by simp⟩, rfl⟩
+  | setCode a c hh => simp [applyMut, putEthAccount, Cache.put] at h; subst h; exact ⟨rfl, ⟨[], by simp⟩, rfl⟩
+  | addBalance a n =>
+    simp [applyMut, setBalance] at h; subst h
+    refine ⟨rfl, ⟨[], by simp⟩, ?_⟩
+    simp only []; split <;> simp [Cache.put, Cache.delete]
+  | subBalance a n =>
+    simp only [applyMut] at h
+    split at h
+    · cases h; exact ⟨rfl, ⟨[], by simp⟩, rfl⟩
+    · cases h
+      refine ⟨rfl, ⟨[], by simp [setBalance]⟩, ?_⟩
+      simp only [setBalance]; split <;> simp [Cache.put, Cache.delete]
+  | suicide a =>
+    simp only [applyMut] at h
+    split at h
+    · cases h; exact ⟨rfl, ⟨[], by simp⟩, rfl⟩
+    · cases h
+      refine ⟨rfl, ⟨[], by simp [setBalance]⟩, ?_⟩
+      simp [setBalance, Cache.delete]
+  | addLog d => simp [applyMut] at h; subst h; exact ⟨rfl, ⟨[d], rfl⟩, rfl⟩
+  | addRefund n => simp [applyMut] at h; subst h; exact ⟨rfl, ⟨[], by simp⟩, rfl⟩
+  | subRefund n =>
+    simp only [applyMut] at h
+    split at h
+    · cases h
+    · cases h; exact ⟨rfl, ⟨[], by simp⟩, rfl⟩
+
+/-- the snapshot record `Snapshot()` pushes for state `s` -/
+def snapOf (s : StateDB) : Snap := ⟨s.cache.mem, s.suicided, s.logs.length, s.refund⟩
+
+/-- invariant of a run above snapshot `i = s1.snaps.length` taken in state `s1` -/
+structure Above (s1 s : StateDB) : Prop where
+  snaps : ∃ extra, s.snaps = s1.snaps ++ snapOf s1 :: extra ∧ ∀ sn ∈ extra, s1.logs.length ≤ sn.logsSize
+  logs : ∃ t, s.logs = s1.logs ++ t
+  backend : s.cache.backend = s1.cache.backend
+
+theorem above_snapshot (s1 : StateDB) : Above s1 s1.snapshot.1 := by
+  refine ⟨⟨[], ?_, by simp⟩, ⟨[], by simp [snapshot]⟩, rfl⟩
+  simp [snapshot, snapOf]
+
+theorem take_prefix {α} (a t : List α) (n : Nat) (h : a.length ≤ n) : ∃ t', (a ++ t).take n = a ++ t' := by
+  refine ⟨t.take (n - a.length), ?_⟩
+  rw [List.take_append]
+  congr 1
+  exact List.take_of_length_le h
+
+theorem above_step {s1 s : StateDB} (inv : Above s1 s) (o : SOp) (s' : StateDB) (h : s.step o = some s')
+    (hd : s1.snaps.length < s'.snaps.length) : Above s1 s' := by
+  obtain ⟨⟨extra, hs, hx⟩, ⟨t, hl⟩, hb⟩ := inv
+  cases o with
+  | mutate m =>
+    obtain ⟨f1, ⟨t', f2⟩, f3⟩ := applyMut_frame (show s.applyMut m = some s' from h)
+    exact ⟨⟨extra, by rw [f1, hs], hx⟩, ⟨t ++ t', by rw [f2, hl]; simp⟩, by rw [f3, hb]⟩
+  | snapshot =>
+    simp only [step, Option.some.injEq] at h; subst h
+    refine ⟨⟨extra ++ [snapOf s], by simp [snapshot, hs, snapOf], ?_⟩, ⟨t, by simp [snapshot, hl]⟩, by simp [snapshot, hb]⟩
+    intro sn hsn
+    simp only [List.mem_append, List.mem_singleton] at hsn
+    rcases hsn with hsn | rfl
+    · exact hx sn hsn
+    · simp [snapOf, hl]
+  | revert idx =>
+    simp only [step, StateDB.revert] at h
+    split at h
+    · cases h
+    · split at h
+      · cases h
+      · rename_i sn hsn
+        cases h
+        simp only [List.length_take] at hd
+        generalize idx.toNat = j at *
+        have hlen : j < s.snaps.length := (List.getElem?_eq_some_iff.mp hsn).1
+        obtain ⟨d, rfl⟩ : ∃ d, j = s1.snaps.length + (d + 1) := ⟨j - s1.snaps.length - 1, by omega⟩
+        have hget : extra[d]? = some sn := by
+          rw [hs, List.getElem?_append_right (by omega)] at hsn
+          have : s1.snaps.length + (d + 1) - s1.snaps.length = d + 1 := by omega
+          rw [this, List.getElem?_cons_succ] at hsn
+          exact hsn
+        have hmem : sn ∈ extra := List.mem_of_getElem? hget
+        refine ⟨⟨extra.take d, ?_, ?_⟩, ?_, hb⟩
+        · simp only [hs]
+          rw [List.take_append]
+          have e1 : List.take (s1.snaps.length + (d + 1)) s1.snaps = s1.snaps := List.take_of_length_le (by omega)
+          have e2 : s1.snaps.length + (d + 1) - s1.snaps.length = d + 1 := by omega
+          rw [e1, e2, List.take_succ_cons]
+        · intro x hxm; exact hx x (List.mem_of_mem_take hxm)
+        · simp only [hl]
+          exact take_prefix _ _ _ (hx sn hmem)
+  | discard idx =>
+    simp only [step, StateDB.discard] at h
+    split at h
+    · cases h
+    · split at h
+      · cases h
+      · cases h
+        simp only [List.length_take] at hd
+        generalize idx.toNat = j at *
+        obtain ⟨d, rfl⟩ : ∃ d, j = s1.snaps.length + (d + 1) := ⟨j - s1.snaps.length - 1, by omega⟩
+        refine ⟨⟨extra.take d, ?_, ?_⟩, ⟨t, hl⟩, hb⟩
+        · simp only [hs]
+          rw [List.take_append]
+          have e1 : List.take (s1.snaps.length + (d + 1)) s1.snaps = s1.snaps := List.take_of_length_le (by omega)
+          have e2 : s1.snaps.length + (d + 1) - s1.snaps.length = d + 1 := by omega
+          rw [e1, e2, List.take_succ_cons]
+        · intro x hxm; exact hx x (List.mem_of_mem_take hxm)
+
+/-- the snapshot stack never drops to depth `≤ i` during the history (a panicking op leaves the state unchanged) -/
+def StaysAbove (i : Nat) : StateDB → List SOp → Prop
+  | _, [] => True
+  | s, o :: r => i < ((s.step o).getD s).snaps.length ∧ StaysAbove i ((s.step o).getD s) r
+
+instance decStaysAbove : (i : Nat) → (s : StateDB) → (ops : List SOp) → Decidable (StaysAbove i s ops)
+  | _, _, [] => isTrue trivial
+  | i, s, o :: r =>
+    have := decStaysAbove i ((s.step o).getD s) r
+    (inferInstance : Decidable (i < ((s.step o).getD s).snaps.length ∧ StaysAbove i ((s.step o).getD s) r))
+
+theorem above_run {s1 : StateDB} (ops : List SOp) {s : StateDB} (inv : Above s1 s)
+    (h : StaysAbove s1.snaps.length s ops) : Above s1 (s.runOps ops) := by
+  induction ops generalizing s with
+  | nil => exact inv
+  | cons o r ih =>
+    have rc : s.runOps (o :: r) = ((s.step o).getD s).runOps r := rfl
+    rw [rc]
+    obtain ⟨h1, h2⟩ := h
+    cases hs : s.step o with
+    | none =>
+      simp only [hs, Option.getD_none] at h1 h2 ⊢
+      exact ih inv h2
+    | some s' =>
+      simp only [hs, Option.getD_some] at h1 h2 ⊢
+      exact ih (above_step inv o s' hs h1) h2
+
+theorem revert_of_above {s1 s2 : StateDB} (inv : Above s1 s2) :
+    s2.revert (s1.snaps.length : Int) = some { s1 with dbErr := s2.dbErr } := by
+  obtain ⟨⟨extra, hs, _⟩, ⟨t, hl⟩, hb⟩ := inv
+  have hget : s2.snaps[s1.snaps.length]? = some (snapOf s1) := by
+    rw [hs, List.getElem?_append_right (Nat.le_refl _)]; simp
+  simp only [StateDB.revert]
+  have hneg : ¬ ((s1.snaps.length : Int) < 0) := by omega
+  simp only [hneg, if_false, Int.toNat_natCast, hget]
+  congr 1
+  cases s1 with
+  | mk c1 su1 lg1 rf1 sn1 e1 =>
+    cases s2 with
+    | mk c2 su2 lg2 rf2 sn2 e2 =>
+      simp only [snapOf] at hs hl hb ⊢
+      subst hl
+      cases c1; cases c2
+      simp only at hb
+      subst hb
+      simp [hs]
+
+end SDB
+
+/-! ### Store and layered reads (C04) -/
+
+theorem delete_bound {st : Store} {k x : Key} (hm : ∀ e ∈ st, kcmp x e.1 = .lt) :
+    ∀ e ∈ Store.delete st k, kcmp x e.1 = .lt := by
+  induction st with
+  | nil => intro e he; simp [Store.delete] at he
+  | cons a r ih =>
+    obtain ⟨k', v'⟩ := a
+    intro e he
+    simp only [Store.delete] at he
+    split at he
+    · simp only [List.mem_cons] at he
+      rcases he with rfl | he
+      · exact hm _ (by simp)
+      · exact ih (fun e he => hm e (by simp [he])) e he
+    · exact hm e (by simp [he])
+    · exact hm e he
+
+theorem delete_sorted {st : Store} (h : Sorted st) (k : Key) : Sorted (Store.delete st k) := by
+  induction st with
+  | nil => simp [Store.delete, Sorted]
+  | cons a r ih =>
+    obtain ⟨k', v'⟩ := a
+    unfold Sorted at h ih ⊢
+    rw [List.pairwise_cons] at h
+    simp only [Store.delete]
+    split
+    · rw [List.pairwise_cons]; exact ⟨delete_bound h.1, ih h.2⟩
+    · exact h.2
+    · rw [List.pairwise_cons]; exact h
+
+theorem get_delete {st : Store} (hs : Sorted st) (k q : Key) :
+    MemDB.get (Store.delete st k) q = if q = k then none else MemDB.get st q := by
+  induction st with
+  | nil => simp [Store.delete, MemDB.get]
+  | cons a r ih =>
+    obtain ⟨k', v'⟩ := a
+    unfold Sorted at hs ih
+    rw [List.pairwise_cons] at hs
+    simp only [Store.delete]
+    split
+    · rename_i hc   -- k' < k
+      simp only [MemDB.get]
+      by_cases hq : q = k
+      · subst hq; simp only [hc, if_true]; rw [ih hs.2]; simp
+      · simp only [hq, if_false]
+        cases hc2 : kcmp k' q with
+        | lt => simp only; rw [ih hs.2]; simp [hq]
+        | eq => rfl
+        | gt => rfl
+    · rename_i hc
+      have hkk : k' = k := kcmp_eq_iff.mp hc
+      subst hkk
+      by_cases hq : q = k'
+      · subst hq; simp only [if_true]; exact get_none_of_lt hs.2 hs.1
+      · simp only [hq, if_false, MemDB.get]
+        have hne : kcmp k' q ≠ .eq := fun h => hq (kcmp_eq_iff.mp h).symm
+        cases hc2 : kcmp k' q with
+        | eq => exact absurd hc2 hne
+        | lt => rfl
+        | gt =>
+          have hlt := kcmp_gt_iff.mp hc2
+          exact get_none_of_lt hs.2 (fun e he => kcmp_lt_trans hlt (hs.1 e he))
+    · rename_i hc   -- k' > k : k is absent
+      have hk : kcmp k k' = .lt := kcmp_gt_iff.mp hc
+      by_cases hq : q = k
+      · subst hq; simp [MemDB.get, hc]
+      · simp [hq]
+
+/-- replaying one write-set entry into the store: a tombstone deletes, anything else is put -/
+def applyEntry (st : Store) (e : KV) : Store := if e.2.isEmpty then Store.delete st e.1 else Store.put st e.1 e.2
+
+theorem applyEntry_sorted {st : Store} (h : Sorted st) (e : KV) : Sorted (applyEntry st e) := by
+  unfold applyEntry; split
+  · exact delete_sorted h _
+  · exact put_sorted h _ _
+
+theorem read_applyEntry {st : Store} (h : Sorted st) (e : KV) (q : Key) :
+    Store.read (applyEntry st e) q = if q = e.1 then e.2 else Store.read st q := by
+  by_cases he : e.2.isEmpty
+  · have hz : e.2 = [] := by simpa using he
+    simp only [applyEntry, he, if_true, Store.read, Store.get]
+    rw [get_delete h]
+    by_cases hq : q = e.1 <;> simp [hq, hz]
+  · have he' : e.2.isEmpty = false := by simpa using he
+    simp only [applyEntry, he', Store.read, Store.get, Store.put, Bool.false_eq_true, if_false]
+    rw [get_put h]
+    by_cases hq : q = e.1 <;> simp [hq]
+
+/-- reads after replaying a sorted write set: the write set's entry wins, everything else is unchanged -/
+theorem read_foldl_applyEntry (es : List KV) (hes : Sorted es) {st : Store} (h : Sorted st) (q : Key) :
+    Store.read (es.foldl applyEntry st) q = (match MemDB.get es q with | some v => v | none => Store.read st q)
+    ∧ Sorted (es.foldl applyEntry st) := by
+  induction es generalizing st with
+  | nil => exact ⟨rfl, h⟩
+  | cons e r ih =>
+    unfold Sorted at hes ih
+    rw [List.pairwise_cons] at hes
+    obtain ⟨ih1, ih2⟩ := ih hes.2 (applyEntry_sorted h e)
+    refine ⟨?_, ih2⟩
+    rw [List.foldl_cons, ih1, read_applyEntry h]
+    obtain ⟨k, v⟩ := e
+    simp only [MemDB.get]
+    cases hc : kcmp k q with
+    | lt =>
+      have : q ≠ k := fun hh => by subst hh; rw [kcmp_refl] at hc; cases hc
+      simp [this]
+    | eq =>
+      have := kcmp_eq_iff.mp hc; subst this
+      rw [get_none_of_lt hes.2 hes.1]; simp
+    | gt =>
+      have hlt := kcmp_gt_iff.mp hc
+      have : q ≠ k := fun hh => by subst hh; rw [kcmp_refl] at hc; cases hc
+      rw [get_none_of_lt hes.2 (fun e he => kcmp_lt_trans hlt (hes.1 e he))]
+      simp [this]
+
+/-- replaying a sorted write set into a memdb (CacheDB.Commit): same shape -/
+def putEntry (m : MemDB) (e : KV) : MemDB := m.put e.1 e.2
+
+theorem get_foldl_putEntry (es : List KV) (hes : Sorted es) {m : MemDB} (h : Sorted m) (q : Key) :
+    MemDB.get (es.foldl putEntry m) q = (match MemDB.get es q with | some v => some v | none => MemDB.get m q)
+    ∧ Sorted (es.foldl putEntry m) := by
+  induction es generalizing m with
+  | nil => exact ⟨rfl, h⟩
+  | cons e r ih =>
+    unfold Sorted at hes ih
+    rw [List.pairwise_cons] at hes
+    obtain ⟨ih1, ih2⟩ := ih hes.2 (show Sorted (putEntry m e) from put_sorted h e.1 e.2)
+    refine ⟨?_, ih2⟩
+    rw [List.foldl_cons, ih1]
+    simp only [putEntry]
+    rw [get_put h]
+    obtain ⟨k, v⟩ := e
+    simp only [MemDB.get]
+    cases hc : kcmp k q with
+    | lt =>
+      have : q ≠ k := fun hh => by subst hh; rw [kcmp_refl] at hc; cases hc
+      simp [this]
+    | eq =>
+      have := kcmp_eq_iff.mp hc; subst this
+      rw [get_none_of_lt hes.2 hes.1]; simp
+    | gt =>
+      have hlt := kcmp_gt_iff.mp hc
+      have : q ≠ k := fun hh => by subst hh; rw [kcmp_refl] at hc; cases hc
+      rw [get_none_of_lt hes.2 (fun e he => kcmp_lt_trans hlt (hes.1 e he))]
+      simp [this]
+
+/-- all three layers strictly sorted -/
+structure Inv (c : Cache) : Prop where
+  tx : Sorted c.mem
+  blk : Sorted c.backend.mem
+  per : Sorted c.backend.store
+
+theorem commit_backend_mem (c : Cache) :
+    c.commit.backend.mem = c.mem.foldl putEntry c.backend.mem ∧ c.commit.backend.store = c.backend.store := by
+  unfold Cache.commit
+  simp only
+  generalize c.backend = o
+  induction c.mem generalizing o with
+  | nil => exact ⟨rfl, rfl⟩
+  | cons e r ih =>
+    simp only [List.foldl_cons]
+    have : (if e.2.isEmpty then o.delete e.1 else o.put e.1 e.2) = o.put e.1 e.2 := by
+      split
+      · rename_i he
+        have : e.2 = [] := by simpa using he
+        simp [Overlay.delete, Overlay.put, MemDB.del, this]
+      · rfl
+    rw [this]
+    obtain ⟨h1, h2⟩ := ih (o.put e.1 e.2)
+    exact ⟨by rw [h1]; rfl, by rw [h2]; rfl⟩
+
+theorem commitTo_store (o : Overlay) : o.commitTo.store = o.mem.foldl applyEntry o.store ∧ o.commitTo.mem = o.mem :=
+  ⟨rfl, rfl⟩
+
+theorem step_inv {c : Cache} (inv : Inv c) (op : COp) : Inv (c.step op) := by
+  obtain ⟨h1, h2, h3⟩ := inv
+  cases op with
+  | put k v => exact ⟨put_sorted h1 _ _, h2, h3⟩
+  | del k => exact ⟨put_sorted h1 _ _, h2, h3⟩
+  | commit =>
+    obtain ⟨e1, e2⟩ := commit_backend_mem c
+    refine ⟨by simp [Cache.step, Cache.commit, Sorted], ?_, ?_⟩
+    · show Sorted c.commit.backend.mem
+      rw [e1]; exact (get_foldl_putEntry c.mem h1 h2 []).2
+    · show Sorted c.commit.backend.store
+      rw [e2]; exact h3
+  | reset => exact ⟨by simp [Cache.step, Cache.reset, Sorted], h2, h3⟩
+  | bput k v => exact ⟨h1, put_sorted h2 _ _, h3⟩
+  | bdel k => exact ⟨h1, put_sorted h2 _ _, h3⟩
+  | bcommit keep =>
+    have hs : Sorted (c.backend.mem.foldl applyEntry c.backend.store) := (read_foldl_applyEntry _ h2 h3 []).2
+    cases keep with
+    | true => exact ⟨h1, h2, hs⟩
+    | false => exact ⟨h1, by simp [Cache.step, Overlay.reset, Sorted], hs⟩
+  | breset => exact ⟨h1, by simp [Cache.step, Overlay.reset, Sorted], h3⟩
+
+/-! ### Iterators (C04) -/
+
+/-- abstract state of an iterator over a list: not positioned yet / positioned on the head of `l` (`[]` = exhausted) -/
+inductive Abs
+  | fresh (l : List KV)
+  | at (l : List KV)
+
+def hdKey : List KV → Bytes
+  | [] => []
+  | e :: _ => e.1
+def hdVal : List KV → Bytes
+  | [] => []
+  | e :: _ => e.2
+
+/-- `R` relates concrete iterator states to abstract ones and is preserved by the operations: the iterator yields the
+list, then reports exhaustion with nil key/value, forever -/
+structure Sim {σ : Type} (O : IterOps σ) (R : σ → Abs → Prop) : Prop where
+  first : ∀ s l, R s (.fresh l) → (O.first s).1 = !l.isEmpty ∧ R (O.first s).2 (.at l)
+  next : ∀ s l, R s (.at l) →
+    O.key s = hdKey l ∧ O.value s = hdVal l ∧ (O.next s).1 = !l.tail.isEmpty ∧ R (O.next s).2 (.at l.tail)
+  bound : ∀ s l, R s (.at l) → l.length ≤ O.bound s
+
+def RLeaf (s : Leaf) : Abs → Prop
+  | .fresh l => s.all = l ∧ s.cur = none
+  | .at l => s.cur = some l ∧ l.length ≤ s.all.length
+
+theorem leaf_sim : Sim leafOps RLeaf := by
+  refine ⟨?_, ?_, ?_⟩
+  · intro s l h
+    obtain ⟨h1, h2⟩ := h
+    subst h1
+    exact ⟨rfl, rfl, Nat.le_refl _⟩
+  · intro s l h
+    obtain ⟨h1, h2⟩ := h
+    cases l with
+    | nil =>
+      refine ⟨by simp [leafOps, Leaf.key, h1, hdKey], by simp [leafOps, Leaf.value, h1, hdVal], ?_, ?_⟩
+      · simp [leafOps, Leaf.next, h1]
+      · simp [leafOps, Leaf.next, h1, RLeaf]
+    | cons e r =>
+      refine ⟨by simp [leafOps, Leaf.key, h1, hdKey], by simp [leafOps, Leaf.value, h1, hdVal], ?_, ?_⟩
+      · simp [leafOps, Leaf.next, h1]
+      · simp only [leafOps, Leaf.next, h1, RLeaf, List.tail_cons, true_and]
+        simp at h2; omega
+  · intro s l h
+    obtain ⟨_, h2⟩ := h
+    simp [leafOps]; omega
+
+/-- merge of two key-sorted lists; on equal keys the first (memory) side wins and the second side's entry is dropped -/
+def mergeKV : List KV → List KV → List KV
+  | [], lb => lb
+  | m :: rm, [] => m :: rm
+  | m :: rm, b :: rb =>
+    match kcmp m.1 b.1 with
+    | .lt => m :: mergeKV rm (b :: rb)
+    | .eq => m :: mergeKV rm rb
+    | .gt => b :: mergeKV (m :: rm) rb
+termination_by a b => a.length + b.length
+
+theorem mergeKV_nil_right (a : List KV) : mergeKV a [] = a := by
+  cases a <;> simp [mergeKV]
+
+theorem mergeKV_length (a b : List KV) : (mergeKV a b).length ≤ a.length + b.length := by
+  induction a generalizing b with
+  | nil => simp [mergeKV]
+  | cons m rm iha =>
+    induction b with
+    | nil => simp [mergeKV]
+    | cons x rb ihb =>
+      rw [mergeKV]
+      split
+      · have := iha (x :: rb); simp at this ⊢; omega
+      · have := iha rb; simp at this ⊢; omega
+      · simp at ihb ⊢; omega
+
+/-- the live entries: tombstones (empty values) are skipped -/
+def live (l : List KV) : List KV := l.filter fun e => !e.2.isEmpty
+
+def phantom : KV := ([], [])
+
+/-- what a child still has to offer, as the join iterator sees it: nothing once its end flag is set; a child that is
+exhausted but whose flag is not yet set (it was empty from the start) offers a phantom nil/nil element -/
+def virt (p : List KV) (ended : Bool) : List KV := if ended then [] else if p.isEmpty then [phantom] else p
+
+theorem virt_false (p : List KV) : virt p false = (hdKey p, hdVal p) :: p.tail := by
+  cases p <;> simp [virt, phantom, hdKey, hdVal]
+
+theorem virt_tail (p : List KV) : virt p.tail p.tail.isEmpty = p.tail := by
+  unfold virt
+  cases h : p.tail with
+  | nil => simp
+  | cons a r => simp
+
+section join
+variable {μ β : Type} (M : IterOps μ) (B : IterOps β) (RM : μ → Abs → Prop) (RB : β → Abs → Prop)
+
+/-- final state: both end flags set, nil key/value -/
+def D1 (j : Join μ β) : Prop := j.memEnd = true ∧ j.backEnd = true ∧ j.key = [] ∧ j.value = []
+
+/-- the children are positioned on `pm` / `pb`, the end flags are sound, and the current key/value/origin is the head
+of the side(s) named by `origin` -/
+structure IState (j : Join μ β) (pm pb : List KV) : Prop where
+  hm : RM j.mem (.at pm)
+  hb : RB j.back (.at pb)
+  me : j.memEnd = true → pm = []
+  be : j.backEnd = true → pb = []
+  cur : match j.origin with
+    | .mem => j.memEnd = false ∧ j.key = hdKey pm ∧ j.value = hdVal pm
+    | .back => j.backEnd = false ∧ j.key = hdKey pb ∧ j.value = hdVal pb
+    | .both => j.memEnd = false ∧ j.backEnd = false ∧ j.key = hdKey pm ∧ j.value = hdVal pm
+
+/-- the raw stream (before tombstones are skipped) that follows the current element -/
+def restOf (j : Join μ β) (pm pb : List KV) : List KV :=
+  match j.origin with
+  | .mem => mergeKV (virt pm j.memEnd).tail (virt pb j.backEnd)
+  | .back => mergeKV (virt pm j.memEnd) (virt pb j.backEnd).tail
+  | .both => mergeKV (virt pm j.memEnd).tail (virt pb j.backEnd).tail
+
+/-- second half of `JoinIter.next`: pick the smaller head -/
+def sel (j : Join μ β) : Bool × Join μ β :=
+  if j.backEnd then
+    if j.memEnd then (false, { j with key := [], value := [] })
+    else (true, { j with key := M.key j.mem, value := M.value j.mem, origin := .mem })
+  else if j.memEnd then (true, { j with key := B.key j.back, value := B.value j.back, origin := .back })
+  else
+    match kcmp (M.key j.mem) (B.key j.back) with
+    | .lt => (true, { j with key := M.key j.mem, value := M.value j.mem, origin := .mem })
+    | .eq => (true, { j with key := M.key j.mem, value := M.value j.mem, origin := .both })
+    | .gt => (true, { j with key := B.key j.back, value := B.value j.back, origin := .back })
+
+/-- first half: advance the side(s) the current element came from -/
+def adv (j : Join μ β) : Join μ β :=
+  let mm := if (j.origin == .mem || j.origin == .both) && !j.memEnd then ((M.next j.mem).2, !(M.next j.mem).1) else (j.mem, j.memEnd)
+  let bb := if (j.origin == .back || j.origin == .both) && !j.backEnd then ((B.next j.back).2, !(B.next j.back).1) else (j.back, j.backEnd)
+  { j with mem := mm.1, back := bb.1, memEnd := mm.2, backEnd := bb.2 }
+
+theorem rawNext_eq (j : Join μ β) : Join.rawNext M B j = sel M B (adv M B j) := by
+  unfold Join.rawNext sel adv
+  by_cases h1 : ((j.origin == .mem || j.origin == .both) && !j.memEnd) = true <;>
+  by_cases h2 : ((j.origin == .back || j.origin == .both) && !j.backEnd) = true <;>
+  simp only [h1, h2, if_true, if_false] <;> rfl
+
+variable {M B RM RB}
+
+theorem sel_spec (sm : Sim M RM) (sb : Sim B RB) (j : Join μ β) (pm pb : List KV)
+    (hm : RM j.mem (.at pm)) (hb : RB j.back (.at pb))
+    (me : j.memEnd = true → pm = []) (be : j.backEnd = true → pb = []) :
+    (mergeKV (virt pm j.memEnd) (virt pb j.backEnd) = [] → (sel M B j).1 = false ∧ D1 (sel M B j).2) ∧
+    (mergeKV (virt pm j.memEnd) (virt pb j.backEnd) ≠ [] → (sel M B j).1 = true ∧ IState RM RB (sel M B j).2 pm pb ∧
+      ((sel M B j).2.key, (sel M B j).2.value) :: restOf (sel M B j).2 pm pb
+        = mergeKV (virt pm j.memEnd) (virt pb j.backEnd)) := by
+  obtain ⟨km, vm, _, _⟩ := sm.next _ _ hm
+  obtain ⟨kb, vb, _, _⟩ := sb.next _ _ hb
+  cases hbe : j.backEnd <;> cases hme : j.memEnd
+  · -- both sides still open
+    rw [virt_false, virt_false]
+    constructor
+    · intro h; rw [mergeKV] at h; split at h <;> simp at h
+    · intro _
+      unfold sel
+      simp only [hbe, hme, Bool.false_eq_true, if_false, km, kb, vm, vb]
+      rw [mergeKV]
+      simp only
+      cases hc : kcmp (hdKey pm) (hdKey pb) with
+      | lt =>
+        refine ⟨rfl, ⟨hm, hb, by simp [hme], by simp [hbe], ?_⟩, ?_⟩
+        · simp [hme]
+        · simp [restOf, hme, hbe, virt_false]
+      | eq =>
+        refine ⟨rfl, ⟨hm, hb, by simp [hme], by simp [hbe], ?_⟩, ?_⟩
+        · simp [hme, hbe]
+        · simp [restOf, hme, hbe, virt_false]
+      | gt =>
+        refine ⟨rfl, ⟨hm, hb, by simp [hme], by simp [hbe], ?_⟩, ?_⟩
+        · simp [hbe]
+        · simp [restOf, hme, hbe, virt_false]
+  · -- memory side ended
+    have : virt pm true = [] := rfl
+    rw [this, virt_false]
+    constructor
+    · intro h; simp [mergeKV] at h
+    · intro _
+      unfold sel
+      simp only [hbe, hme, Bool.false_eq_true, if_false, if_true, kb, vb]
+      refine ⟨by trivial, ⟨hm, hb, by simpa [hme] using me, by simp [hbe], ?_⟩, ?_⟩
+      · simp [hbe]
+      · simp [restOf, hme, hbe, virt_false, this, mergeKV]
+  · -- backend side ended
+    have : virt pb true = [] := rfl
+    rw [this, virt_false]
+    constructor
+    · intro h; simp [mergeKV] at h
+    · intro _
+      unfold sel
+      simp only [hbe, hme, Bool.false_eq_true, if_false, if_true, km, vm]
+      refine ⟨by trivial, ⟨hm, hb, by simp [hme], by simpa [hbe] using be, ?_⟩, ?_⟩
+      · simp [hme]
+      · simp [restOf, hme, hbe, virt_false, this, mergeKV_nil_right]
+  · constructor
+    · intro _
+      unfold sel
+      simp [hbe, hme, D1]
+    · intro h; simp [virt, mergeKV] at h
+
+end join
+
+section join
+variable {μ β : Type} {M : IterOps μ} {B : IterOps β} {RM : μ → Abs → Prop} {RB : β → Abs → Prop}
+
+theorem adv_spec (sm : Sim M RM) (sb : Sim B RB) (j : Join μ β) (pm pb : List KV) (h : IState RM RB j pm pb) :
+    ∃ pm₁ pb₁, RM (adv M B j).mem (.at pm₁) ∧ RB (adv M B j).back (.at pb₁) ∧
+      ((adv M B j).memEnd = true → pm₁ = []) ∧ ((adv M B j).backEnd = true → pb₁ = []) ∧
+      mergeKV (virt pm₁ (adv M B j).memEnd) (virt pb₁ (adv M B j).backEnd) = restOf j pm pb ∧
+      pm₁.length ≤ pm.length ∧ pb₁.length ≤ pb.length := by
+  obtain ⟨hm, hb, me, be, cur⟩ := h
+  obtain ⟨_, _, nm, rm⟩ := sm.next _ _ hm
+  obtain ⟨_, _, nb, rb⟩ := sb.next _ _ hb
+  have tl (l : List KV) : l.tail.length ≤ l.length := by simp
+  cases ho : j.origin with
+  | mem =>
+    rw [ho] at cur
+    obtain ⟨c1, _, _⟩ := cur
+    refine ⟨pm.tail, pb, ?_, ?_, ?_, ?_, ?_, tl _, Nat.le_refl _⟩
+    · simpa [adv, ho, c1] using rm
+    · simpa [adv, ho] using hb
+    · simp [adv, ho, c1, nm]
+    · simpa [adv, ho] using be
+    · simp only [adv, ho, c1, restOf, nm]
+      simp [virt_false, virt_tail]
+  | back =>
+    rw [ho] at cur
+    obtain ⟨c1, _, _⟩ := cur
+    refine ⟨pm, pb.tail, ?_, ?_, ?_, ?_, ?_, Nat.le_refl _, tl _⟩
+    · simpa [adv, ho] using hm
+    · simpa [adv, ho, c1] using rb
+    · simpa [adv, ho] using me
+    · simp [adv, ho, c1, nb]
+    · simp only [adv, ho, c1, restOf, nb]
+      simp [virt_false, virt_tail]
+  | both =>
+    rw [ho] at cur
+    obtain ⟨c1, c2, _, _⟩ := cur
+    refine ⟨pm.tail, pb.tail, ?_, ?_, ?_, ?_, ?_, tl _, tl _⟩
+    · simpa [adv, ho, c1] using rm
+    · simpa [adv, ho, c2] using rb
+    · simp [adv, ho, c1, nm]
+    · simp [adv, ho, c2, nb]
+    · simp only [adv, ho, c1, c2, restOf, nm, nb]
+      simp [virt_false, virt_tail]
+
+/-- the raw stream from the current element on -/
+def stream (j : Join μ β) (pm pb : List KV) : List KV := (j.key, j.value) :: restOf j pm pb
+
+theorem rawNext_spec (sm : Sim M RM) (sb : Sim B RB) (j : Join μ β) (pm pb : List KV) (h : IState RM RB j pm pb) :
+    (restOf j pm pb = [] → (Join.rawNext M B j).1 = false ∧ D1 (Join.rawNext M B j).2) ∧
+    (restOf j pm pb ≠ [] → (Join.rawNext M B j).1 = true ∧ ∃ pm' pb', IState RM RB (Join.rawNext M B j).2 pm' pb' ∧
+      stream (Join.rawNext M B j).2 pm' pb' = restOf j pm pb ∧ pm'.length ≤ pm.length ∧ pb'.length ≤ pb.length) := by
+  obtain ⟨pm₁, pb₁, a1, a2, a3, a4, a5, l1, l2⟩ := adv_spec sm sb j pm pb h
+  obtain ⟨s1, s2⟩ := sel_spec sm sb (adv M B j) pm₁ pb₁ a1 a2 a3 a4
+  rw [rawNext_eq, ← a5]
+  refine ⟨s1, fun hne => ?_⟩
+  obtain ⟨t1, t2, t3⟩ := s2 hne
+  exact ⟨t1, pm₁, pb₁, t2, t3, l1, l2⟩
+
+theorem virt_length (p : List KV) (e : Bool) : (virt p e).length ≤ p.length + 1 := by
+  unfold virt; split
+  · simp
+  · split <;> simp_all
+
+theorem stream_length (j : Join μ β) (pm pb : List KV) : (stream j pm pb).length ≤ pm.length + pb.length + 3 := by
+  have h1 := virt_length pm j.memEnd
+  have h2 := virt_length pb j.backEnd
+  have t1 : (virt pm j.memEnd).tail.length ≤ (virt pm j.memEnd).length := by simp
+  have t2 : (virt pb j.backEnd).tail.length ≤ (virt pb j.backEnd).length := by simp
+  unfold stream restOf
+  simp only [List.length_cons]
+  split
+  · have := mergeKV_length (virt pm j.memEnd).tail (virt pb j.backEnd); omega
+  · have := mergeKV_length (virt pm j.memEnd) (virt pb j.backEnd).tail; omega
+  · have := mergeKV_length (virt pm j.memEnd).tail (virt pb j.backEnd).tail; omega
+
+theorem skip_spec (sm : Sim M RM) (sb : Sim B RB) (n : Nat) (j : Join μ β) (pm pb : List KV)
+    (h : IState RM RB j pm pb) (hn : (stream j pm pb).length ≤ n) :
+    (live (stream j pm pb) = [] → (Join.skip M B n j).1 = false ∧ D1 (Join.skip M B n j).2) ∧
+    (live (stream j pm pb) ≠ [] → (Join.skip M B n j).1 = true ∧ ∃ pm' pb', IState RM RB (Join.skip M B n j).2 pm' pb' ∧
+      live (stream (Join.skip M B n j).2 pm' pb') = live (stream j pm pb) ∧ (Join.skip M B n j).2.value ≠ [] ∧
+      pm'.length ≤ pm.length ∧ pb'.length ≤ pb.length) := by
+  induction n generalizing j pm pb with
+  | zero => simp [stream] at hn
+  | succ n ih =>
+    by_cases hv : j.value.isEmpty = true
+    · have hl : live (stream j pm pb) = live (restOf j pm pb) := by
+        simp [stream, live, List.filter_cons, hv]
+      obtain ⟨r1, r2⟩ := rawNext_spec sm sb j pm pb h
+      by_cases hr : restOf j pm pb = []
+      · obtain ⟨q1, q2⟩ := r1 hr
+        have e : Join.skip M B (n + 1) j = (false, (Join.rawNext M B j).2) := by
+          simp [Join.skip, hv, q1]
+        rw [e]
+        refine ⟨fun _ => ⟨rfl, q2⟩, fun hne => ?_⟩
+        rw [hl, hr] at hne; simp [live] at hne
+      · obtain ⟨q1, pm', pb', q2, q3, l1, l2⟩ := r2 hr
+        have e : Join.skip M B (n + 1) j = Join.skip M B n (Join.rawNext M B j).2 := by
+          simp [Join.skip, hv, q1]
+        have hn' : (stream (Join.rawNext M B j).2 pm' pb').length ≤ n := by
+          rw [q3]; simp [stream] at hn; omega
+        obtain ⟨i1, i2⟩ := ih _ pm' pb' q2 hn'
+        rw [e, hl, ← q3]
+        refine ⟨i1, fun hne => ?_⟩
+        obtain ⟨u1, pm'', pb'', u2, u3, u4, u5, u6⟩ := i2 hne
+        exact ⟨u1, pm'', pb'', u2, u3, u4, by omega, by omega⟩
+    · have e : Join.skip M B (n + 1) j = (true, j) := by simp [Join.skip, hv]
+      have hv' : j.value ≠ [] := by
+        intro hh; apply hv; simp [hh]
+      rw [e]
+      refine ⟨fun hl => ?_, fun _ => ⟨rfl, pm, pb, h, rfl, hv', Nat.le_refl _, Nat.le_refl _⟩⟩
+      simp [stream, live, List.filter_cons, hv] at hl
+
+end join
+
+theorem live_cons_dead (e : KV) (l : List KV) (h : e.2 = []) : live (e :: l) = live l := by
+  simp [live, List.filter_cons, h]
+
+theorem live_cons_live (e : KV) (l : List KV) (h : e.2 ≠ []) : live (e :: l) = e :: live l := by
+  have : e.2.isEmpty = false := by cases hh : e.2 with
+    | nil => exact absurd hh h
+    | cons a r => rfl
+  simp [live, List.filter_cons, this]
+
+theorem live_merge_phantom_right (l : List KV) : live (mergeKV l [phantom]) = live l := by
+  induction l with
+  | nil => simp [mergeKV, live, phantom]
+  | cons m r ih =>
+    rw [mergeKV]
+    split
+    · rename_i hc
+      cases hk : m.1 <;> simp [hk, phantom, kcmp] at hc
+    · rw [mergeKV_nil_right]
+    · rw [live_cons_dead _ _ (by rfl), mergeKV_nil_right]
+
+theorem live_merge_phantom_left (l : List KV) (h : ∀ e ∈ l, e.1 ≠ []) : live (mergeKV [phantom] l) = live l := by
+  cases l with
+  | nil => simp [mergeKV, live, phantom]
+  | cons b r =>
+    have hb : b.1 ≠ [] := h b (by simp)
+    rw [mergeKV]
+    split
+    · rw [live_cons_dead _ _ (by rfl)]; simp [mergeKV]
+    · rename_i hc
+      have : phantom.1 = b.1 := kcmp_eq_iff.mp hc
+      exact absurd this.symm hb
+    · rename_i hc
+      cases hk : b.1 <;> simp [hk, phantom, kcmp] at hc
+
+theorem virt_false_ne (p : List KV) (h : p ≠ []) : virt p false = p := by
+  cases p with
+  | nil => exact absurd rfl h
+  | cons a r => simp [virt]
+
+section join
+variable {μ β : Type} {M : IterOps μ} {B : IterOps β} {RM : μ → Abs → Prop} {RB : β → Abs → Prop}
+
+/-- abstraction relation of the join iterator: a fresh join over children that will yield `lm` / `lb` stands for
+`live (mergeKV lm lb)`; a positioned one stands for the live part of its raw stream -/
+def RJoin (RM : μ → Abs → Prop) (RB : β → Abs → Prop) (j : Join μ β) : Abs → Prop
+  | .fresh L => ∃ lm lb, RM j.mem (.fresh lm) ∧ RB j.back (.fresh lb) ∧ (∀ e ∈ lb.tail, e.1 ≠ []) ∧
+      L = live (mergeKV lm lb) ∧ j.memEnd = false ∧ j.backEnd = false ∧ j.origin = .mem ∧ j.key = [] ∧ j.value = []
+  | .at L => (L = [] ∧ D1 j) ∨
+      ∃ pm pb, IState RM RB j pm pb ∧ L = live (stream j pm pb) ∧ (L = [] → j.key = [] ∧ j.value = []) ∧
+        (L ≠ [] → j.value ≠ [])
+
+theorem rawFirst_spec (sm : Sim M RM) (sb : Sim B RB) (j : Join μ β) (L : List KV)
+    (h : RJoin RM RB j (.fresh L)) :
+    ∃ pm pb, IState RM RB (Join.rawFirst M B j).2 pm pb ∧ live (stream (Join.rawFirst M B j).2 pm pb) = L ∧
+      ((Join.rawFirst M B j).1 = false → (Join.rawFirst M B j).2.key = [] ∧ (Join.rawFirst M B j).2.value = [] ∧ L = []) := by
+  obtain ⟨lm, lb, hm, hb, hne, hL, f1, f2, f3, f4, f5⟩ := h
+  obtain ⟨m1, m2⟩ := sm.first _ _ hm
+  obtain ⟨b1, b2⟩ := sb.first _ _ hb
+  obtain ⟨km, vm, _, _⟩ := sm.next _ _ m2
+  obtain ⟨kb, vb, _, _⟩ := sb.next _ _ b2
+  refine ⟨lm, lb, ?_⟩
+  cases lm with
+  | nil =>
+    cases lb with
+    | nil =>
+      have e : Join.rawFirst M B j = (false, { j with mem := (M.first j.mem).2, back := (B.first j.back).2 }) := by
+        simp [Join.rawFirst, m1, b1]
+      rw [e]
+      refine ⟨⟨m2, b2, by simp [f1], by simp [f2], ?_⟩, ?_, ?_⟩
+      · simp [f3, f1, f4, f5, hdKey, hdVal]
+      · simp [stream, restOf, f3, f1, f2, f4, f5, virt, mergeKV, hL, live, phantom]
+      · intro _; simp [f4, f5, hL, mergeKV, live]
+    | cons b rb =>
+      have e : Join.rawFirst M B j = (true, { j with mem := (M.first j.mem).2, back := (B.first j.back).2, key := b.1, value := b.2, origin := .back }) := by
+        simp [Join.rawFirst, m1, b1, kb, vb, hdKey, hdVal]
+      rw [e]
+      refine ⟨⟨m2, b2, by simp [f1], by simp [f2], ?_⟩, ?_, by simp⟩
+      · simp [f2, hdKey, hdVal]
+      · simp only [stream, restOf, f1, f2]
+        rw [virt_false_ne (b :: rb) (by simp)]
+        have : virt [] false = [phantom] := rfl
+        rw [this, List.tail_cons, hL]
+        simp only [mergeKV]
+        by_cases hv : b.2 = []
+        · rw [live_cons_dead _ _ (by simpa using hv), live_cons_dead _ _ hv]
+          exact live_merge_phantom_left rb (by simpa using hne)
+        · rw [live_cons_live _ _ (by simpa using hv), live_cons_live _ _ hv]
+          rw [live_merge_phantom_left rb (by simpa using hne)]
+  | cons m rm =>
+    cases lb with
+    | nil =>
+      have e : Join.rawFirst M B j = (true, { j with mem := (M.first j.mem).2, back := (B.first j.back).2, key := m.1, value := m.2, origin := .mem }) := by
+        simp [Join.rawFirst, m1, b1, km, vm, hdKey, hdVal]
+      rw [e]
+      refine ⟨⟨m2, b2, by simp [f1], by simp [f2], ?_⟩, ?_, by simp⟩
+      · simp [f1, hdKey, hdVal]
+      · simp only [stream, restOf, f1, f2]
+        rw [virt_false_ne (m :: rm) (by simp)]
+        have : virt [] false = [phantom] := rfl
+        rw [this, List.tail_cons, hL, mergeKV_nil_right]
+        by_cases hv : m.2 = []
+        · rw [live_cons_dead _ _ (by simpa using hv), live_cons_dead _ _ hv]
+          exact live_merge_phantom_right rm
+        · rw [live_cons_live _ _ (by simpa using hv), live_cons_live _ _ hv, live_merge_phantom_right rm]
+    | cons b rb =>
+      let j0 : Join μ β := { j with mem := (M.first j.mem).2, back := (B.first j.back).2 }
+      have e : Join.rawFirst M B j = sel M B j0 := by
+        simp only [Join.rawFirst, sel, m1, b1, j0, f1, f2]
+        simp only [List.isEmpty_cons, Bool.not_false, Bool.not_true, if_true, Bool.false_eq_true, if_false]
+        cases kcmp (M.key (M.first j.mem).2) (B.key (B.first j.back).2) <;> rfl
+      rw [e]
+      obtain ⟨_, s2⟩ := sel_spec sm sb j0 (m :: rm) (b :: rb) m2 b2 (by simp [j0, f1]) (by simp [j0, f2])
+      have hne' : mergeKV (virt (m :: rm) j0.memEnd) (virt (b :: rb) j0.backEnd) ≠ [] := by
+        simp only [j0, f1, f2, virt_false_ne _ (List.cons_ne_nil _ _)]
+        rw [mergeKV]; split <;> simp
+      obtain ⟨t1, t2, t3⟩ := s2 hne'
+      refine ⟨t2, ?_, by simp [t1]⟩
+      show live (stream (sel M B j0).2 (m :: rm) (b :: rb)) = L
+      unfold stream
+      rw [t3, hL]
+      simp only [j0, f1, f2, virt_false_ne _ (List.cons_ne_nil _ _)]
+
+theorem stream_fuel (sm : Sim M RM) (sb : Sim B RB) (j : Join μ β) (pm pb : List KV) (h : IState RM RB j pm pb) :
+    (stream j pm pb).length ≤ Join.fuel M B j := by
+  have := stream_length j pm pb
+  have := sm.bound _ _ h.hm
+  have := sb.bound _ _ h.hb
+  unfold Join.fuel; omega
+
+theorem first_spec (sm : Sim M RM) (sb : Sim B RB) (j : Join μ β) (L : List KV)
+    (h : RJoin RM RB j (.fresh L)) :
+    (Join.first M B j).1 = !L.isEmpty ∧ RJoin RM RB (Join.first M B j).2 (.at L) := by
+  obtain ⟨pm, pb, i1, i2, i3⟩ := rawFirst_spec sm sb j L h
+  unfold Join.first
+  simp only []
+  by_cases hf : (Join.rawFirst M B j).1 = true
+  · simp only [hf, if_true]
+    obtain ⟨k1, k2⟩ := skip_spec sm sb _ _ pm pb i1 (stream_fuel sm sb _ pm pb i1)
+    rw [i2] at k1 k2
+    by_cases hL : L = []
+    · obtain ⟨q1, q2⟩ := k1 hL
+      rw [q1, hL]
+      exact ⟨rfl, Or.inl ⟨rfl, q2⟩⟩
+    · obtain ⟨q1, pm', pb', q2, q3, q4, _, _⟩ := k2 hL
+      rw [q1]
+      refine ⟨by cases L <;> simp_all, Or.inr ⟨pm', pb', q2, q3.symm, fun h => absurd h hL, fun _ => q4⟩⟩
+  · have hf' : (Join.rawFirst M B j).1 = false := by simpa using hf
+    simp only [hf', Bool.false_eq_true, if_false]
+    obtain ⟨q1, q2, q3⟩ := i3 hf'
+    rw [q3]
+    exact ⟨rfl, Or.inr ⟨pm, pb, i1, by rw [i2, q3], fun _ => ⟨q1, q2⟩, fun h => absurd rfl h⟩⟩
+
+end join
+
+section join
+variable {μ β : Type} {M : IterOps μ} {B : IterOps β} {RM : μ → Abs → Prop} {RB : β → Abs → Prop}
+
+theorem d1_next (j : Join μ β) (h : D1 j) :
+    (Join.next M B j).1 = false ∧ D1 (Join.next M B j).2 := by
+  obtain ⟨h1, h2, h3, h4⟩ := h
+  have e : Join.rawNext M B j = (false, { j with key := [], value := [] }) := by
+    rw [rawNext_eq]
+    simp [adv, sel, h1, h2]
+  unfold Join.next
+  simp only [e]
+  exact ⟨rfl, h1, h2, rfl, rfl⟩
+
+theorem next_spec (sm : Sim M RM) (sb : Sim B RB) (j : Join μ β) (L : List KV) (h : RJoin RM RB j (.at L)) :
+    j.key = hdKey L ∧ j.value = hdVal L ∧ (Join.next M B j).1 = !L.tail.isEmpty ∧
+      RJoin RM RB (Join.next M B j).2 (.at L.tail) := by
+  rcases h with ⟨hL, hd⟩ | ⟨pm, pb, hi, hL, h0, h1⟩
+  · subst hL
+    obtain ⟨n1, n2⟩ := d1_next (M := M) (B := B) j hd
+    exact ⟨hd.2.2.1, hd.2.2.2, n1, Or.inl ⟨rfl, n2⟩⟩
+  · -- L.tail is the live part of what follows the current element
+    have htail : L.tail = live (restOf j pm pb) ∧ j.key = hdKey L ∧ j.value = hdVal L := by
+      by_cases hv : j.value = []
+      · have hLe : L = [] := by
+          cases hl : L with
+          | nil => rfl
+          | cons a r => exact absurd hv (h1 (by simp [hl]))
+        have : live (restOf j pm pb) = [] := by
+          rw [hLe] at hL
+          rw [stream, live_cons_dead _ _ hv] at hL
+          exact hL.symm
+        obtain ⟨k0, v0⟩ := h0 hLe
+        rw [hLe, this]; exact ⟨rfl, k0, v0⟩
+      · rw [hL, stream, live_cons_live _ _ hv]
+        exact ⟨rfl, rfl, rfl⟩
+    obtain ⟨ht, hk, hvv⟩ := htail
+    refine ⟨hk, hvv, ?_⟩
+    obtain ⟨r1, r2⟩ := rawNext_spec sm sb j pm pb hi
+    unfold Join.next
+    simp only []
+    by_cases hr : restOf j pm pb = []
+    · obtain ⟨q1, q2⟩ := r1 hr
+      have : L.tail = [] := by rw [ht, hr]; rfl
+      simp only [q1, Bool.false_eq_true, if_false, this]
+      exact ⟨rfl, Or.inl ⟨rfl, q2⟩⟩
+    · obtain ⟨q1, pm', pb', q2, q3, _, _⟩ := r2 hr
+      simp only [q1, if_true]
+      obtain ⟨k1, k2⟩ := skip_spec sm sb _ _ pm' pb' q2 (stream_fuel sm sb _ pm' pb' q2)
+      rw [q3, ← ht] at k1 k2
+      by_cases hT : L.tail = []
+      · obtain ⟨u1, u2⟩ := k1 hT
+        rw [u1, hT]
+        exact ⟨rfl, Or.inl ⟨rfl, u2⟩⟩
+      · obtain ⟨u1, pm'', pb'', u2, u3, u4, _, _⟩ := k2 hT
+        rw [u1]
+        refine ⟨by cases h : L.tail <;> simp_all, Or.inr ⟨pm'', pb'', u2, u3.symm, fun h => absurd h hT, fun _ => u4⟩⟩
+
+theorem live_length_le (l : List KV) : (live l).length ≤ l.length := List.length_filter_le _ _
+
+theorem join_sim (sm : Sim M RM) (sb : Sim B RB) : Sim (joinOps M B) (RJoin RM RB) := by
+  refine ⟨fun j L h => first_spec sm sb j L h, fun j L h => next_spec sm sb j L h, ?_⟩
+  intro j L h
+  rcases h with ⟨hL, _⟩ | ⟨pm, pb, hi, hL, _, _⟩
+  · subst hL; simp
+  · have := stream_length j pm pb
+    have := sm.bound _ _ hi.hm
+    have := sb.bound _ _ hi.hb
+    have := live_length_le (stream j pm pb)
+    show L.length ≤ M.bound j.mem + B.bound j.back + 3
+    rw [hL]; omega
+
+end join
+
+/-- draining `n` elements of a simulated iterator that has just been `first`-ed yields the first `n` elements of its list -/
+theorem drain_spec {σ : Type} {O : IterOps σ} {R : σ → Abs → Prop} (sim : Sim O R) (strip : Bool) (n : Nat)
+    (s : σ) (l : List KV) (ok : Bool) (h : R s (.at l)) (hok : ok = !l.isEmpty) :
+    drain O strip n (ok, s) = (l.take n).map fun e => ((if strip then e.1.drop 1 else e.1), e.2) := by
+  induction n generalizing s l ok with
+  | zero => simp [drain]
+  | succ n ih =>
+    obtain ⟨k, v, nx, rn⟩ := sim.next s l h
+    cases l with
+    | nil => subst hok; simp [drain]
+    | cons e r =>
+      subst hok
+      simp only [drain, List.isEmpty_cons, Bool.not_false, if_true, k, v, hdKey, hdVal, List.take_succ_cons, List.map_cons]
+      congr 1
+      have := ih (O.next s).2 r (O.next s).1 rn (by simpa using nx)
+      rw [← this]
+
+theorem mem_mergeKV {a b : List KV} {e : KV} (h : e ∈ mergeKV a b) : e ∈ a ∨ e ∈ b := by
+  fun_induction mergeKV a b with
+  | case1 lb => exact Or.inr h
+  | case2 m rm => exact Or.inl h
+  | case3 m rm b rb hc ih =>
+    simp only [List.mem_cons] at h ⊢
+    rcases h with h | h
+    · exact Or.inl (Or.inl h)
+    · rcases ih h with h | h
+      · exact Or.inl (Or.inr h)
+      · simp only [List.mem_cons] at h; exact Or.inr h
+  | case4 m rm b rb hc ih =>
+    simp only [List.mem_cons] at h ⊢
+    rcases h with h | h
+    · exact Or.inl (Or.inl h)
+    · rcases ih h with h | h
+      · exact Or.inl (Or.inr h)
+      · exact Or.inr (Or.inr h)
+  | case5 m rm b rb hc ih =>
+    simp only [List.mem_cons] at h ⊢
+    rcases h with h | h
+    · exact Or.inr (Or.inl h)
+    · rcases ih h with h | h
+      · simp only [List.mem_cons] at h; exact Or.inl h
+      · exact Or.inr (Or.inr h)
+
+theorem get_cons (k : Key) (v : Val) (r : List KV) (q : Key) :
+    MemDB.get ((k, v) :: r) q = match kcmp k q with | .lt => MemDB.get r q | .eq => some v | .gt => none := rfl
+
+theorem mergeKV_sorted_get {a b : List KV} (ha : Sorted a) (hb : Sorted b) :
+    Sorted (mergeKV a b) ∧ ∀ q, MemDB.get (mergeKV a b) q = (match MemDB.get a q with | some v => some v | none => MemDB.get b q) := by
+  fun_induction mergeKV a b with
+  | case1 lb => exact ⟨hb, fun q => rfl⟩
+  | case2 m rm => exact ⟨ha, fun q => by cases MemDB.get (m :: rm) q <;> rfl⟩
+  | case3 m rm b rb hc ih =>
+    unfold Sorted at ha hb ih ⊢
+    rw [List.pairwise_cons] at ha
+    obtain ⟨i1, i2⟩ := ih ha.2 hb
+    have hb' := hb
+    rw [List.pairwise_cons] at hb'
+    constructor
+    · rw [List.pairwise_cons]
+      refine ⟨fun e he => ?_, i1⟩
+      rcases mem_mergeKV he with h | h
+      · exact ha.1 e h
+      · simp only [List.mem_cons] at h
+        rcases h with rfl | h
+        · exact hc
+        · exact kcmp_lt_trans hc (hb'.1 e h)
+    · intro q
+      obtain ⟨mk, mv⟩ := m
+      obtain ⟨bk, bv⟩ := b
+      simp only [get_cons, i2 q]
+      cases hq : kcmp mk q with
+      | lt => rfl
+      | eq => rfl
+      | gt =>
+        -- q < mk < bk: absent on both sides
+        have hlt : kcmp q mk = .lt := kcmp_gt_iff.mp hq
+        have : kcmp q bk = .lt := kcmp_lt_trans hlt hc
+        simp [kcmp_gt_iff.mpr this]
+  | case4 m rm b rb hc ih =>
+    unfold Sorted at ha hb ih ⊢
+    rw [List.pairwise_cons] at ha hb
+    obtain ⟨i1, i2⟩ := ih ha.2 hb.2
+    have hk : m.1 = b.1 := kcmp_eq_iff.mp hc
+    constructor
+    · rw [List.pairwise_cons]
+      refine ⟨fun e he => ?_, i1⟩
+      rcases mem_mergeKV he with h | h
+      · exact ha.1 e h
+      · rw [hk]; exact hb.1 e h
+    · intro q
+      obtain ⟨mk, mv⟩ := m
+      obtain ⟨bk, bv⟩ := b
+      simp only at hk; subst hk
+      simp only [get_cons, i2 q]
+      cases hq : kcmp mk q with
+      | lt => rfl
+      | eq => rfl
+      | gt =>
+        have hlt : kcmp q mk = .lt := kcmp_gt_iff.mp hq
+        rw [get_none_of_lt ha.2 (fun e he => kcmp_lt_trans hlt (ha.1 e he)),
+            get_none_of_lt hb.2 (fun e he => kcmp_lt_trans hlt (hb.1 e he))]
+  | case5 m rm b rb hc ih =>
+    unfold Sorted at ha hb ih ⊢
+    have ha' := ha
+    rw [List.pairwise_cons] at ha' hb
+    obtain ⟨i1, i2⟩ := ih ha hb.2
+    have hbm : kcmp b.1 m.1 = .lt := kcmp_gt_iff.mp hc
+    constructor
+    · rw [List.pairwise_cons]
+      refine ⟨fun e he => ?_, i1⟩
+      rcases mem_mergeKV he with h | h
+      · simp only [List.mem_cons] at h
+        rcases h with rfl | h
+        · exact hbm
+        · exact kcmp_lt_trans hbm (ha'.1 e h)
+      · exact hb.1 e h
+    · intro q
+      obtain ⟨mk, mv⟩ := m
+      obtain ⟨bk, bv⟩ := b
+      simp only [get_cons, i2 q]
+      cases hq : kcmp bk q with
+      | lt => rfl
+      | eq =>
+        have := kcmp_eq_iff.mp hq; subst this
+        simp [hc]
+      | gt =>
+        have hlt : kcmp q bk = .lt := kcmp_gt_iff.mp hq
+        have : kcmp q mk = .lt := kcmp_lt_trans hlt hbm
+        simp [kcmp_gt_iff.mpr this]
+
+theorem mem_iff_get {l : List KV} (hs : Sorted l) (k : Key) (v : Val) : (k, v) ∈ l ↔ MemDB.get l k = some v := by
+  induction l with
+  | nil => simp [MemDB.get]
+  | cons a r ih =>
+    obtain ⟨ak, av⟩ := a
+    unfold Sorted at hs ih
+    rw [List.pairwise_cons] at hs
+    simp only [List.mem_cons, get_cons, Prod.mk.injEq]
+    cases hc : kcmp ak k with
+    | lt =>
+      have : k ≠ ak := fun h => by subst h; rw [kcmp_refl] at hc; cases hc
+      simp [this, ih hs.2]
+    | eq =>
+      have := kcmp_eq_iff.mp hc; subst this
+      have hn : (ak, v) ∉ r := fun h => by have := hs.1 _ h; rw [kcmp_refl] at this; cases this
+      simp only [true_and, Option.some.injEq]
+      constructor
+      · rintro (h | h)
+        · exact h.symm
+        · exact absurd h hn
+      · intro h; exact Or.inl h.symm
+    | gt =>
+      have hlt : kcmp k ak = .lt := kcmp_gt_iff.mp hc
+      have : k ≠ ak := fun h => by subst h; rw [kcmp_refl] at hc; cases hc
+      have hn : (k, v) ∉ r := fun h => by
+        have := kcmp_lt_trans hlt (hs.1 _ h); rw [kcmp_refl] at this; cases this
+      simp [this, hn]
+
+theorem sorted_filter {l : List KV} (hs : Sorted l) (f : KV → Bool) : Sorted (l.filter f) :=
+  List.Pairwise.sublist List.filter_sublist hs
+
+theorem mem_live {l : List KV} (k : Key) (v : Val) : (k, v) ∈ live l ↔ (k, v) ∈ l ∧ v ≠ [] := by
+  simp [live, List.mem_filter]
+
+theorem tail_keys_ne {l : List KV} (hs : Sorted l) : ∀ e ∈ l.tail, e.1 ≠ [] := by
+  cases l with
+  | nil => simp
+  | cons a r =>
+    unfold Sorted at hs
+    rw [List.pairwise_cons] at hs
+    intro e he hh
+    have := hs.1 e he
+    rw [hh] at this
+    cases hk : a.1 <;> rw [hk] at this <;> simp [kcmp] at this
+
+/-- `util.BytesPrefix`: the keys in `[prefix, limit)` are exactly the keys that start with `prefix` -/
+theorem prefix_range (p k : Bytes) :
+    (kcmp k p ≠ .lt ∧ belowLimit (prefixLimit p) k = true) ↔ p <+: k := by
+  induction p generalizing k with
+  | nil =>
+    simp only [prefixLimit, belowLimit, List.nil_prefix, and_true, iff_true]
+    cases k <;> simp [kcmp]
+  | cons c r ih =>
+    cases k with
+    | nil => simp [kcmp]
+    | cons d ks =>
+      rw [List.cons_prefix_cons]
+      simp only [kcmp]
+      by_cases h1 : d.toNat < c.toNat
+      · have hne : c ≠ d := fun h => by subst h; omega
+        simp [h1, hne]
+      · by_cases h2 : c.toNat < d.toNat
+        · have hne : d ≠ c := fun h => by subst h; omega
+          have hne' : c ≠ d := fun h => hne h.symm
+          simp only [h1, h2, if_false, if_true, ne_eq, reduceCtorEq, not_false_eq_true, true_and, hne', false_and, iff_false]
+          simp only [prefixLimit]
+          cases hl : prefixLimit r with
+          | some l => simp [belowLimit, kcmp, h1, h2]
+          | none =>
+            simp only
+            by_cases hc : c.toNat < 255
+            · have e : (c + 1).toNat = c.toNat + 1 := by simp [UInt8.toNat_add]; omega
+              simp only [hc, if_true, belowLimit, kcmp, e]
+              have h3 : ¬ d.toNat < c.toNat + 1 := by omega
+              by_cases h4 : c.toNat + 1 < d.toNat
+              · simp [h3, h4]
+              · simp only [h3, h4, if_false]
+                cases ks <;> simp [kcmp]
+            · have := UInt8.toNat_lt d
+              omega
+        · have hdc : c = d := by apply UInt8.toNat_inj.mp; omega
+          subst hdc
+          simp only [h1, if_false, true_and]
+          rw [← ih ks]
+          simp only [prefixLimit]
+          cases hl : prefixLimit r with
+          | some l => simp [belowLimit, kcmp]
+          | none =>
+            simp only
+            by_cases hc : c.toNat < 255
+            · have e : (c + 1).toNat = c.toNat + 1 := by simp [UInt8.toNat_add]; omega
+              simp [hc, belowLimit, kcmp, e]
+            · simp [hc, belowLimit]
+
+theorem belowLimit_mono {lim : Option Bytes} {a b : Key} (hab : kcmp a b = .lt) (hb : belowLimit lim b = true) :
+    belowLimit lim a = true := by
+  cases lim with
+  | none => rfl
+  | some l =>
+    simp only [belowLimit, beq_iff_eq] at hb ⊢
+    exact kcmp_lt_trans hab hb
+
+/-- on a sorted list the walk `findGE(start)` … until `limit` selects exactly the keys in range -/
+theorem slice_sorted_get {m : List KV} (hs : Sorted m) (start : Bytes) (lim : Option Bytes) :
+    Sorted (slice m start lim) ∧ ∀ q, MemDB.get (slice m start lim) q =
+      (if kcmp q start ≠ .lt ∧ belowLimit lim q = true then MemDB.get m q else none) := by
+  induction m with
+  | nil => exact ⟨by simp [slice, Sorted], fun q => by simp [slice, MemDB.get]⟩
+  | cons a r ih =>
+    obtain ⟨ak, av⟩ := a
+    unfold Sorted at hs ih
+    rw [List.pairwise_cons] at hs
+    obtain ⟨i1, i2⟩ := ih hs.2
+    by_cases hd : kcmp ak start = .lt
+    · -- dropped
+      have e : slice ((ak, av) :: r) start lim = slice r start lim := by
+        simp [slice, List.dropWhile_cons, hd]
+      rw [e]
+      refine ⟨i1, fun q => ?_⟩
+      rw [i2 q, get_cons]
+      by_cases hr : kcmp q start ≠ .lt ∧ belowLimit lim q = true
+      · simp only [hr, and_self, if_true]
+        cases hc : kcmp ak q with
+        | lt => rfl
+        | eq => have := kcmp_eq_iff.mp hc; subst this; exact absurd hd hr.1
+        | gt =>
+          have := kcmp_lt_trans (kcmp_gt_iff.mp hc) hd
+          exact absurd this hr.1
+      · simp [hr]
+    · -- kept by dropWhile: everything after is ≥ start too
+      have hge : ∀ e ∈ r, kcmp e.1 start ≠ .lt := fun e he h => hd (kcmp_lt_trans (hs.1 e he) h)
+      have edrop : ((ak, av) :: r).dropWhile (fun e => kcmp e.1 start == .lt) = (ak, av) :: r := by
+        simp [List.dropWhile_cons, hd]
+      have edrop' : r.dropWhile (fun e => kcmp e.1 start == .lt) = r := by
+        cases r with
+        | nil => rfl
+        | cons b rr => simp [List.dropWhile_cons, hge b (by simp)]
+      by_cases hl : belowLimit lim ak = true
+      · have e : slice ((ak, av) :: r) start lim = (ak, av) :: slice r start lim := by
+          simp only [slice, edrop, edrop', List.takeWhile_cons, hl, if_true]
+        rw [e]
+        constructor
+        · unfold Sorted
+          rw [List.pairwise_cons]
+          refine ⟨fun x hx => ?_, i1⟩
+          have : x ∈ r := by
+            simp only [slice, edrop'] at hx
+            exact (List.takeWhile_sublist _).subset hx
+          exact hs.1 x this
+        · intro q
+          rw [get_cons, get_cons, i2 q]
+          cases hc : kcmp ak q with
+          | lt => rfl
+          | eq =>
+            have := kcmp_eq_iff.mp hc; subst this
+            simp [hd, hl]
+          | gt => simp
+      · have e : slice ((ak, av) :: r) start lim = [] := by
+          simp only [slice, edrop, List.takeWhile_cons, hl]; simp
+        rw [e]
+        refine ⟨by simp [Sorted], fun q => ?_⟩
+        simp only [MemDB.get]
+        by_cases hr : kcmp q start ≠ .lt ∧ belowLimit lim q = true
+        · rw [if_pos hr]
+          cases hc : kcmp ak q with
+          | lt => exact absurd (belowLimit_mono hc hr.2) hl
+          | eq => have := kcmp_eq_iff.mp hc; subst this; exact absurd hr.2 hl
+          | gt => rfl
+        · simp [hr]
+
+theorem prefixSlice_spec {m : List KV} (hs : Sorted m) (p : Bytes) :
+    Sorted (prefixSlice m p) ∧ ∀ k v, (k, v) ∈ prefixSlice m p ↔ (p <+: k ∧ MemDB.get m k = some v) := by
+  obtain ⟨s1, s2⟩ := slice_sorted_get hs p (prefixLimit p)
+  unfold prefixSlice
+  refine ⟨s1, fun k v => ?_⟩
+  rw [mem_iff_get s1, s2 k]
+  by_cases h : kcmp k p ≠ .lt ∧ belowLimit (prefixLimit p) k = true
+  · simp [h, (prefix_range p k).mp h]
+  · have : ¬ p <+: k := fun hp => h ((prefix_range p k).mpr hp)
+    simp [h, this]
+
+theorem get_prefixSlice {m : List KV} (hs : Sorted m) (p k : Bytes) :
+    (p <+: k → MemDB.get (prefixSlice m p) k = MemDB.get m k) ∧ (¬ p <+: k → MemDB.get (prefixSlice m p) k = none) := by
+  have s2 := (slice_sorted_get hs p (prefixLimit p)).2 k
+  unfold prefixSlice
+  constructor
+  · intro h; rw [s2, if_pos ((prefix_range p k).mpr h)]
+  · intro h; rw [s2, if_neg (fun hh => h ((prefix_range p k).mp hh))]
+
+/-- the list an `OverlayDB` prefix iterator stands for -/
+def overlayList (o : Overlay) (p : Bytes) : List KV :=
+  live (mergeKV (prefixSlice o.mem p) (prefixSlice o.store p))
+
+theorem overlayList_spec (o : Overlay) (hm : Sorted o.mem) (hs : Sorted o.store) (p : Bytes) :
+    Sorted (overlayList o p) ∧ ∀ k v, (k, v) ∈ overlayList o p ↔ (p <+: k ∧ o.get k = v ∧ v ≠ []) := by
+  obtain ⟨m1, _⟩ := prefixSlice_spec hm p
+  obtain ⟨b1, _⟩ := prefixSlice_spec hs p
+  obtain ⟨g1, g2⟩ := mergeKV_sorted_get m1 b1
+  refine ⟨sorted_filter g1 _, fun k v => ?_⟩
+  unfold overlayList
+  rw [mem_live, mem_iff_get g1, g2 k]
+  obtain ⟨pm1, pm2⟩ := get_prefixSlice hm p k
+  obtain ⟨pb1, pb2⟩ := get_prefixSlice hs p k
+  by_cases hp : p <+: k
+  · rw [pm1 hp, pb1 hp]
+    simp only [Overlay.get, Store.get, hp, true_and]
+    cases h1 : MemDB.get o.mem k with
+    | some w => simp
+    | none =>
+      cases h2 : MemDB.get o.store k with
+      | some w => simp
+      | none => simp
+  · rw [pm2 hp, pb2 hp]; simp [hp]
+
+theorem overlay_iterate_spec (o : Overlay) (hs : Sorted o.store) (p : Bytes) (n : Nat) :
+    o.iterate p n = (overlayList o p).take n := by
+  have sim : Sim overlayIterOps (RJoin RLeaf RLeaf) := join_sim leaf_sim leaf_sim
+  have hfresh : RJoin RLeaf RLeaf (o.newIter p) (.fresh (overlayList o p)) :=
+    ⟨prefixSlice o.mem p, prefixSlice o.store p, ⟨rfl, rfl⟩, ⟨rfl, rfl⟩,
+      tail_keys_ne (prefixSlice_spec hs p).1, rfl, rfl, rfl, rfl, rfl, rfl⟩
+  obtain ⟨f1, f2⟩ := sim.first _ _ hfresh
+  unfold Overlay.iterate
+  have := drain_spec sim false n (overlayIterOps.first (o.newIter p)).2 (overlayList o p)
+    (overlayIterOps.first (o.newIter p)).1 f2 f1
+  rw [this]
+  simp
+
+/-- the list a `CacheDB` prefix iterator stands for (raw keys, i.e. with the ST_STORAGE byte) -/
+def cacheList (c : Cache) (p : Bytes) : List KV :=
+  live (mergeKV (prefixSlice c.mem (stStorage :: p)) (overlayList c.backend (stStorage :: p)))
+
+theorem cacheList_spec (c : Cache) (inv : Inv c) (p : Bytes) :
+    Sorted (cacheList c p) ∧ ∀ k v, (k, v) ∈ cacheList c p ↔ ((stStorage :: p) <+: k ∧ c.read k = v ∧ v ≠ []) := by
+  obtain ⟨m1, _⟩ := prefixSlice_spec inv.tx (stStorage :: p)
+  obtain ⟨b1, b2⟩ := overlayList_spec c.backend inv.blk inv.per (stStorage :: p)
+  obtain ⟨g1, g2⟩ := mergeKV_sorted_get m1 b1
+  refine ⟨sorted_filter g1 _, fun k v => ?_⟩
+  unfold cacheList
+  rw [mem_live, mem_iff_get g1, g2 k]
+  obtain ⟨pm1, pm2⟩ := get_prefixSlice inv.tx (stStorage :: p) k
+  by_cases hp : (stStorage :: p) <+: k
+  · rw [pm1 hp]
+    simp only [Cache.read, hp, true_and]
+    cases h1 : MemDB.get c.mem k with
+    | some w => simp
+    | none =>
+      simp only [← mem_iff_get b1, b2 k v, hp, true_and]
+      constructor
+      · intro h; exact h.1
+      · intro h; exact ⟨h, h.2⟩
+  · rw [pm2 hp]
+    simp only [← mem_iff_get b1, b2 k v, hp, false_and]
+
+theorem cache_iterate_spec (c : Cache) (inv : Inv c) (p : Bytes) (n : Nat) :
+    c.iterate p n = ((cacheList c p).map fun e => (e.1.drop 1, e.2)).take n := by
+  have simO : Sim overlayIterOps (RJoin RLeaf RLeaf) := join_sim leaf_sim leaf_sim
+  have sim : Sim cacheIterOps (RJoin RLeaf (RJoin RLeaf RLeaf)) := join_sim leaf_sim simO
+  have hback : RJoin RLeaf RLeaf (c.backend.newIter (stStorage :: p)) (.fresh (overlayList c.backend (stStorage :: p))) :=
+    ⟨_, _, ⟨rfl, rfl⟩, ⟨rfl, rfl⟩, tail_keys_ne (prefixSlice_spec inv.per _).1, rfl, rfl, rfl, rfl, rfl, rfl⟩
+  have hfresh : RJoin RLeaf (RJoin RLeaf RLeaf) (c.newIter p) (.fresh (cacheList c p)) :=
+    ⟨_, _, ⟨rfl, rfl⟩, hback, tail_keys_ne (overlayList_spec c.backend inv.blk inv.per _).1, rfl, rfl, rfl, rfl, rfl, rfl⟩
+  obtain ⟨f1, f2⟩ := sim.first _ _ hfresh
+  unfold Cache.iterate
+  have := drain_spec sim true n (cacheIterOps.first (c.newIter p)).2 (cacheList c p)
+    (cacheIterOps.first (c.newIter p)).1 f2 f1
+  rw [this]
+  simp [List.map_take]
+
+/-- the stripped list is still strictly ascending and consists of exactly the live keys (without the ST_STORAGE byte) -/
+theorem cacheList_stripped_spec (c : Cache) (inv : Inv c) (p : Bytes) :
+    Sorted ((cacheList c p).map fun e => (e.1.drop 1, e.2)) ∧
+    ∀ k v, (k, v) ∈ ((cacheList c p).map fun e => (e.1.drop 1, e.2)) ↔ (p <+: k ∧ c.get stStorage k = v ∧ v ≠ []) := by
+  obtain ⟨s1, s2⟩ := cacheList_spec c inv p
+  have hshape : ∀ e ∈ cacheList c p, ∃ t, e.1 = stStorage :: t := by
+    intro e he
+    have := ((s2 e.1 e.2).mp he).1
+    obtain ⟨t, ht⟩ := this
+    exact ⟨p ++ t, by rw [← ht]; rfl⟩
+  constructor
+  · unfold Sorted
+    rw [List.pairwise_map]
+    refine List.Pairwise.imp_of_mem ?_ s1
+    intro a b ha hb hab
+    obtain ⟨ta, hta⟩ := hshape a ha
+    obtain ⟨tb, htb⟩ := hshape b hb
+    rw [hta, htb] at hab
+    simp only [hta, htb, List.drop_succ_cons, List.drop_zero]
+    simpa [kcmp] using hab
+  · intro k v
+    rw [List.mem_map]
+    constructor
+    · rintro ⟨e, he, hek⟩
+      obtain ⟨t, ht⟩ := hshape e he
+      simp only [Prod.mk.injEq] at hek
+      obtain ⟨hk, hv⟩ := hek
+      have hmem : (stStorage :: k, v) ∈ cacheList c p := by
+        have : e = (stStorage :: k, v) := by
+          rw [ht] at hk; simp at hk
+          exact Prod.ext (by rw [ht, hk]) hv
+        rw [← this]; exact he
+      have := (s2 _ _).mp hmem
+      rw [List.cons_prefix_cons] at this
+      exact ⟨this.1.2, this.2.1, this.2.2⟩
+    · rintro ⟨h1, h2, h3⟩
+      refine ⟨(stStorage :: k, v), (s2 _ _).mpr ⟨?_, h2, h3⟩, by simp⟩
+      rw [List.cons_prefix_cons]; exact ⟨rfl, h1⟩
+
+/-! ### Permutations of writes to distinct keys (C03) -/
+
+def putOps (ws : List KV) : List Op := ws.map fun e => Op.put e.1 e.2
+
+theorem finalFrom_puts_absent (ws : List KV) (i : Option Val) (q : Key) (h : ∀ e ∈ ws, e.1 ≠ q) :
+    finalFrom i (putOps ws) q = i := by
+  induction ws generalizing i with
+  | nil => rfl
+  | cons e r ih =>
+    have hne : q ≠ e.1 := fun hh => h e (by simp) hh.symm
+    have : finalFrom i (putOps (e :: r)) q = finalFrom i (putOps r) q := by
+      simp [putOps, finalFrom, hne]
+    rw [this]
+    exact ih i (fun x hx => h x (by simp [hx]))
+
+theorem finalFrom_puts_present (ws : List KV) (hnd : (ws.map (·.1)).Nodup) (i : Option Val) (q : Key) (v : Val)
+    (h : (q, v) ∈ ws) : finalFrom i (putOps ws) q = some v := by
+  induction ws generalizing i with
+  | nil => simp at h
+  | cons e r ih =>
+    simp only [List.map_cons, List.nodup_cons] at hnd
+    simp only [List.mem_cons] at h
+    rcases h with h | h
+    · subst h
+      have : finalFrom i (putOps ((q, v) :: r)) q = finalFrom (some v) (putOps r) q := by
+        simp [putOps, finalFrom]
+      rw [this]
+      apply finalFrom_puts_absent
+      intro x hx hxq
+      exact hnd.1 (List.mem_map.mpr ⟨x, hx, hxq⟩)
+    · have hne : q ≠ e.1 := by
+        intro hh
+        apply hnd.1
+        rw [← hh]
+        exact List.mem_map.mpr ⟨(q, v), h, rfl⟩
+      have : finalFrom i (putOps (e :: r)) q = finalFrom i (putOps r) q := by
+        simp [putOps, finalFrom, hne]
+      rw [this]
+      exact ih hnd.2 i h
+
+theorem finalFrom_puts_perm {ws1 ws2 : List KV} (hp : ws1.Perm ws2) (hnd : (ws1.map (·.1)).Nodup)
+    (i : Option Val) (q : Key) : finalFrom i (putOps ws1) q = finalFrom i (putOps ws2) q := by
+  have hnd2 : (ws2.map (·.1)).Nodup := (hp.map _).nodup_iff.mp hnd
+  by_cases hq : ∃ v, (q, v) ∈ ws1
+  · obtain ⟨v, hv⟩ := hq
+    rw [finalFrom_puts_present ws1 hnd i q v hv, finalFrom_puts_present ws2 hnd2 i q v (hp.mem_iff.mp hv)]
+  · have a1 : ∀ e ∈ ws1, e.1 ≠ q := fun e he hh => hq ⟨e.2, by rw [← hh]; exact he⟩
+    have a2 : ∀ e ∈ ws2, e.1 ≠ q := fun e he => a1 e (hp.mem_iff.mpr he)
+    rw [finalFrom_puts_absent ws1 i q a1, finalFrom_puts_absent ws2 i q a2]
 
 end OntVerif.Proofs.KV
